@@ -64,3 +64,33 @@ package cidprimary
 //@   local requires @size-in-range blk.Size < (1 << 31)
 //@   ensures @pooled-next (blk in cp.nextPool.refs) && cp.nextPool.blocks[cp.nextPool.refs[blk]].key != nil ==> err == nil && key == cp.nextPool.blocks[cp.nextPool.refs[blk]].key && value == cp.nextPool.blocks[cp.nextPool.refs[blk]].value
 //@   ensures @pooled-cur !(blk in cp.nextPool.refs) && (blk in cp.curPool.refs) && cp.curPool.blocks[cp.curPool.refs[blk]].key != nil ==> err == nil && key == cp.curPool.blocks[cp.curPool.refs[blk]].key && value == cp.curPool.blocks[cp.curPool.refs[blk]].value
+
+//@ macro CPS(cp) = as(primary.PrimaryStorage, cp)
+
+// Flush / Close of the CID primary (C02, C17): every record of the pool that is flushed is handed
+// to flushBlock exactly once, in pool order; Close flushes before it closes the file and closes
+// the file on every path.
+//@ func (cp *CIDPrimary) Flush() (work types.Work, err error)  property C02 C03
+//@   preserves cp
+//@   local requires @record-size-limit forall i int :: 0 <= i && i < len(cp.nextPool.blocks) ==> len(cp.nextPool.blocks[i].key) + len(cp.nextPool.blocks[i].value) < (1 << 31)
+//@   local requires @pool-size len(cp.nextPool.blocks) < (1 << 30)
+//@   modifies cp.curPool, cp.nextPool, cp.outstandingWork
+//@   abstract gap GAP-2: pools+file implement the ghost primary records
+//@   abstract modifies CPS(cp).$pending
+//@   abstract ensures err == nil ==> !CPS(cp).$pending
+//@   abstract ensures old(!CPS(cp).$pending) ==> !CPS(cp).$pending
+//@   internal ensures @each-record-once err == nil ==> event("call:cidprimary.CIDPrimary.flushBlock") == old(len(cp.nextPool.blocks))
+//@   ensures @pool-emptied old(len(cp.nextPool.blocks)) > 0 ==> len(cp.nextPool.blocks) == 0 && cp.outstandingWork == 0 && cp.curPool.blocks == old(cp.nextPool.blocks)
+//@   loop 0 invariant held(cp.flushLock) && inv(cp) && cp.curPool.blocks == old(cp.nextPool.blocks) && 0 <= $idx && $idx <= len(cp.curPool.blocks) && len(cp.nextPool.blocks) == 0 && cp.outstandingWork == 0
+//@   loop 0 invariant event("call:cidprimary.CIDPrimary.flushBlock") == $idx && work <= 4294967300 * $idx && len(cp.curPool.blocks) < (1 << 30)
+//@   loop 0 invariant forall i int :: 0 <= i && i < len(cp.curPool.blocks) ==> len(cp.curPool.blocks[i].key) + len(cp.curPool.blocks[i].value) < (1 << 31)
+
+//@ func (cp *CIDPrimary) Close() (err error)  property C02 C17
+//@   exclusive Close runs after all users of the primary have stopped (Store.Close contract, C17)
+//@   preserves cp
+//@   local requires @record-size-limit forall i int :: 0 <= i && i < len(cp.nextPool.blocks) ==> len(cp.nextPool.blocks[i].key) + len(cp.nextPool.blocks[i].value) < (1 << 31)
+//@   local requires @pool-size len(cp.nextPool.blocks) < (1 << 30)
+//@   modifies cp.curPool, cp.nextPool, cp.outstandingWork, cp.file.$open, CPS(cp).$pending
+//@   assert at before call (*os.File).Close: @C17-flush-before-close event("call:cidprimary.CIDPrimary.Flush") == 1
+//@   ensures @C17-file-closed !cp.file.$open
+//@   ensures @C02-flushed err == nil ==> !CPS(cp).$pending
